@@ -230,6 +230,30 @@ def run(tier, seed):
         if res["id"].startswith("ovt-task-task-0"):
             v.sample({"overtake_attempt": res["id"], "frames": [[f[0], f[1], f[2]] for f in frames], "overtaken": res["overtaken"]})
 
+    # ---- 2b'. store-level writers of different kinds at once, every sidecar line delayed until a later one is in the sidecar
+    su = [{"op": "ensure_default"}, {"op": "message", "t": 0}, {"op": "message", "t": 0}, {"op": "run_spawned", "t": 0, "m": 0, "s": 0}, {"op": "run_spawned", "t": 0, "m": 1, "s": 1}]
+    after = [{"op": "message", "t": 0}, {"op": "message", "t": 0}, {"op": "replay_all"}]
+    sco = []
+    for rep in range(3 if thorough else 1):
+        sco.append({"id": f"sco-effects-{rep}", "setup": su, "after": after, "actors": [
+            {"ops": [{"op": "side_effects", "t": 0, "m": 0, "s": 0}] * 3}, {"ops": [{"op": "message", "t": 0}] * 3},
+            {"ops": [{"op": "cursor_update", "t": 0}] * 2}, {"ops": [{"op": "side_effects", "t": 0, "m": 1, "s": 1}, {"op": "run_ended", "t": 0, "m": 1, "s": 1}]}]})
+        sco.append({"id": f"sco-jobs-{rep}", "setup": su + [{"op": "cursor_update", "t": 0}], "after": after, "actors": [
+            {"ops": [{"op": "checkpoint", "t": 0, "to_msg": 0, "summary": "s"}, {"op": "checkpoint", "t": 0, "to_msg": 1, "summary": "s2"}]},
+            {"ops": [{"op": "compile", "t": 0, "m": 1, "s": 1, "record": True}, {"op": "compile", "t": 0, "m": 0, "s": 0, "record": True}]},
+            {"ops": [{"op": "cursor_rotate", "t": 0}, {"op": "cursor_update", "t": 0}]}, {"ops": [{"op": "message", "t": 0}] * 3},
+            {"ops": [{"op": "auto", "t": 0, "stride": 1, "max_new": 2}, {"op": "run_ended", "t": 0, "m": 0, "s": 0}]}]})
+    for res in run_harness("sidecar_order", sco, wd, "sco", shards=len(sco), timeout=600):
+        if res.get("error"):
+            die_tool(f"sidecar_order: {res['error']}")
+        frames = res["summary"]["frames"]
+        ok, bad = gapfree(frames)
+        v.add_eval({"sidecar_order": res["id"]}, len(frames) >= 10)
+        if not (ok and res["summary"]["replay_validated"] and res["sidecar_in_order"] and all(res["post_ok"])):
+            v.violation(f"concurrent store writers with delayed sidecar lines ({res['id']}): sidecar in seq order={res['sidecar_in_order']} (seqs {res['sidecar_seqs']}), "
+                        f"{res['overtaken']} lines overtaken; after a restart and two more messages: gap-free={ok} (offending {bad}), replay_validated={res['summary']['replay_validated']}, appends ok={res['post_ok']}",
+                        {"engine": "sidecar_order", "case": [c for c in sco if c["id"] == res["id"]][0]})
+
     # ---- 2c. a session that is given a second input (the API accepts it): its stream must go on, not restart
     d12 = [{"id": "second_input", "linked": False, "same_session": True, "no_provider": True,
             "inputs": [json.dumps({"tool": "ls", "args": {"path": "."}}), json.dumps({"tool": "ls", "args": {"path": "."}})]}]
@@ -366,6 +390,14 @@ def replay(path, seed):
         bad = [(h, g, e) for h, g, e in hflags if suite.GUARD_PROP.get(g) == PROP]
         print(json.dumps({"flags": bad[:3]}))
         if bad:
+            print(f"VIOLATION property={PROP} replay={path}")
+            return 1
+        return 0
+    if case.get("engine") == "sidecar_order":
+        res = run_harness("sidecar_order", [case["case"]], wd, "replay")[0]
+        ok, bad = gapfree(res["summary"]["frames"])
+        print(json.dumps({"gapfree": ok, "bad": bad, "sidecar_in_order": res["sidecar_in_order"], "overtaken": res["overtaken"], "post_ok": res["post_ok"]}))
+        if not (ok and res["summary"]["replay_validated"] and res["sidecar_in_order"] and all(res["post_ok"])):
             print(f"VIOLATION property={PROP} replay={path}")
             return 1
         return 0
